@@ -66,6 +66,10 @@ type streamableHTTPClientTransport struct {
 	// Notification handlers mutex
 	handlersMutex sync.RWMutex
 
+	// stateMu guards sessionID, lastEventID, isStateless and enableGetSSE: they are written by calls and
+	// read (lastEventID also written) by the listening-stream goroutine.
+	stateMu sync.RWMutex
+
 	// Whether in stateless mode
 	// In stateless mode, the client will not send a session ID and will not attempt to establish a GET SSE connection.
 	// This field is set by auto-detection when no session ID is provided in the initialize response.
@@ -254,15 +258,15 @@ func (t *streamableHTTPClientTransport) send(
 	// Set request headers - accept both SSE and JSON responses
 	httpReq.Header.Set(httputil.ContentTypeHeader, httputil.ContentTypeJSON)
 	httpReq.Header.Set(httputil.AcceptHeader, httputil.ContentTypeJSON+", "+httputil.ContentTypeSSE)
-	if t.sessionID != "" && !t.isStateless {
-		httpReq.Header.Set(httputil.SessionIDHeader, t.sessionID)
+	if t.getSessionID() != "" && !t.isStatelessMode() {
+		httpReq.Header.Set(httputil.SessionIDHeader, t.getSessionID())
 	}
 
 	// If lastEventID is provided, attach it to the request
 	if options != nil && options.lastEventID != "" {
 		httpReq.Header.Set(httputil.LastEventIDHeader, options.lastEventID)
-	} else if t.lastEventID != "" {
-		httpReq.Header.Set(httputil.LastEventIDHeader, t.lastEventID)
+	} else if t.getLastEventID() != "" {
+		httpReq.Header.Set(httputil.LastEventIDHeader, t.getLastEventID())
 	}
 
 	// Add custom headers
@@ -288,11 +292,11 @@ func (t *streamableHTTPClientTransport) send(
 	// Handle session ID
 	if sessionID := httpResp.Header.Get(httputil.SessionIDHeader); sessionID != "" {
 		t.setSessionID(sessionID)
-		t.isStateless = false
-	} else if req.Method == MethodInitialize && !t.isStateless {
+		t.setStateless(false)
+	} else if req.Method == MethodInitialize && !t.isStatelessMode() {
 		// If this is an initialize request and no session ID was received, auto-detect as stateless mode
-		t.isStateless = true
-		t.enableGetSSE = false // Disable GET SSE in stateless mode
+		t.setStateless(true)
+		t.setGetSSEEnabled(false) // Disable GET SSE in stateless mode
 	}
 
 	// Check content type
@@ -467,7 +471,7 @@ func (t *streamableHTTPClientTransport) handleSSEResponse(
 
 			// Process event ID
 			if strings.HasPrefix(line, "id:") {
-				t.lastEventID = strings.TrimSpace(strings.TrimPrefix(line, "id:"))
+				t.setLastEventID(strings.TrimSpace(strings.TrimPrefix(line, "id:")))
 				continue
 			}
 
@@ -526,8 +530,8 @@ func (t *streamableHTTPClientTransport) sendNotification(ctx context.Context, no
 	// Set request headers - must accept both JSON and SSE responses per MCP specification.
 	httpReq.Header.Set(httputil.ContentTypeHeader, httputil.ContentTypeJSON)
 	httpReq.Header.Set(httputil.AcceptHeader, httputil.ContentTypeJSON+", "+httputil.ContentTypeSSE)
-	if t.sessionID != "" {
-		httpReq.Header.Set(httputil.SessionIDHeader, t.sessionID)
+	if t.getSessionID() != "" {
+		httpReq.Header.Set(httputil.SessionIDHeader, t.getSessionID())
 	}
 
 	// Add custom headers
@@ -559,7 +563,7 @@ func (t *streamableHTTPClientTransport) sendNotification(ctx context.Context, no
 
 	// Handle session ID
 	if sessionID := httpResp.Header.Get(httputil.SessionIDHeader); sessionID != "" {
-		t.sessionID = sessionID
+		t.setSessionID(sessionID)
 	}
 
 	// Check status code
@@ -602,12 +606,51 @@ func (t *streamableHTTPClientTransport) close() error {
 
 // GetSessionID gets the session ID
 func (t *streamableHTTPClientTransport) getSessionID() string {
+	t.stateMu.RLock()
+	defer t.stateMu.RUnlock()
 	return t.sessionID
 }
 
 // SetSessionID sets the session ID
 func (t *streamableHTTPClientTransport) setSessionID(sessionID string) {
+	t.stateMu.Lock()
 	t.sessionID = sessionID
+	t.stateMu.Unlock()
+}
+
+// getLastEventID returns the id of the last SSE event seen on any stream.
+func (t *streamableHTTPClientTransport) getLastEventID() string {
+	t.stateMu.RLock()
+	defer t.stateMu.RUnlock()
+	return t.lastEventID
+}
+
+// setLastEventID records the id of the last SSE event seen.
+func (t *streamableHTTPClientTransport) setLastEventID(id string) {
+	t.stateMu.Lock()
+	t.lastEventID = id
+	t.stateMu.Unlock()
+}
+
+// setStateless records the auto-detected stateless mode.
+func (t *streamableHTTPClientTransport) setStateless(stateless bool) {
+	t.stateMu.Lock()
+	t.isStateless = stateless
+	t.stateMu.Unlock()
+}
+
+// getSSEEnabled reports whether the listening GET stream is to be used.
+func (t *streamableHTTPClientTransport) getSSEEnabled() bool {
+	t.stateMu.RLock()
+	defer t.stateMu.RUnlock()
+	return t.enableGetSSE
+}
+
+// setGetSSEEnabled switches the use of the listening GET stream on or off.
+func (t *streamableHTTPClientTransport) setGetSSEEnabled(enabled bool) {
+	t.stateMu.Lock()
+	t.enableGetSSE = enabled
+	t.stateMu.Unlock()
 }
 
 // Establish GET SSE connection
@@ -648,7 +691,7 @@ func (t *streamableHTTPClientTransport) establishGetSSE(parentCtx context.Contex
 // Connect to GET SSE endpoint
 func (t *streamableHTTPClientTransport) connectGetSSE(ctx context.Context) error {
 	// Check if there's a session ID
-	if t.sessionID == "" {
+	if t.getSessionID() == "" {
 		return fmt.Errorf("cannot establish GET SSE connection: session ID is empty")
 	}
 
@@ -663,9 +706,9 @@ func (t *streamableHTTPClientTransport) connectGetSSE(ctx context.Context) error
 
 	// Set necessary headers
 	req.Header.Set(httputil.AcceptHeader, httputil.ContentTypeSSE)
-	req.Header.Set(httputil.SessionIDHeader, t.sessionID)
-	if t.lastEventID != "" {
-		req.Header.Set(httputil.LastEventIDHeader, t.lastEventID)
+	req.Header.Set(httputil.SessionIDHeader, t.getSessionID())
+	if t.getLastEventID() != "" {
+		req.Header.Set(httputil.LastEventIDHeader, t.getLastEventID())
 	}
 
 	// Add custom headers
@@ -682,7 +725,7 @@ func (t *streamableHTTPClientTransport) connectGetSSE(ctx context.Context) error
 		}
 	}
 
-	t.logger.Debugf("Attempting to establish GET SSE connection, session ID: %s", t.sessionID)
+	t.logger.Debugf("Attempting to establish GET SSE connection, session ID: %s", t.getSessionID())
 
 	// Send request
 	resp, err := t.httpReqHandler.Handle(ctx, t.httpClient, req)
@@ -702,7 +745,7 @@ func (t *streamableHTTPClientTransport) connectGetSSE(ctx context.Context) error
 	}
 
 	// Handle response
-	t.logger.Debugf("GET SSE connection established, session ID: %s", t.sessionID)
+	t.logger.Debugf("GET SSE connection established, session ID: %s", t.getSessionID())
 
 	// Handle SSE event stream
 	return t.handleGetSSEEvents(ctx, resp.Body)
@@ -744,7 +787,7 @@ func (t *streamableHTTPClientTransport) handleGetSSEEvents(ctx context.Context, 
 			if strings.HasPrefix(line, "id:") {
 				eventID = strings.TrimPrefix(line, "id:")
 				eventID = strings.TrimSpace(eventID)
-				t.lastEventID = eventID
+				t.setLastEventID(eventID)
 			} else if strings.HasPrefix(line, "data:") {
 				data := strings.TrimPrefix(line, "data:")
 				data = strings.TrimSpace(data)
@@ -757,7 +800,7 @@ func (t *streamableHTTPClientTransport) handleGetSSEEvents(ctx context.Context, 
 // Process SSE event.
 func (t *streamableHTTPClientTransport) processSSEEvent(eventID, eventData string) {
 	// Store the last event ID for connection recovery.
-	t.lastEventID = eventID
+	t.setLastEventID(eventID)
 
 	// Skip empty events.
 	if eventData == "" {
@@ -899,8 +942,8 @@ func (t *streamableHTTPClientTransport) sendResponseToServer(response interface{
 	}
 
 	// Add session ID if available
-	if t.sessionID != "" {
-		httpReq.Header.Set(httputil.SessionIDHeader, t.sessionID) // Use correct MCP protocol header: Mcp-Session-Id.
+	if t.getSessionID() != "" {
+		httpReq.Header.Set(httputil.SessionIDHeader, t.getSessionID()) // Use correct MCP protocol header: Mcp-Session-Id.
 	}
 
 	// Apply HTTP before-request functions.
@@ -943,8 +986,8 @@ func (t *streamableHTTPClientTransport) terminateSession(ctx context.Context) er
 	}
 
 	// Set session ID header
-	if t.sessionID != "" {
-		httpReq.Header.Set(httputil.SessionIDHeader, t.sessionID)
+	if t.getSessionID() != "" {
+		httpReq.Header.Set(httputil.SessionIDHeader, t.getSessionID())
 	} else {
 		return fmt.Errorf("no active session")
 	}
@@ -978,7 +1021,7 @@ func (t *streamableHTTPClientTransport) terminateSession(ctx context.Context) er
 	}
 
 	// Session successfully terminated, clear session ID
-	t.sessionID = ""
+	t.setSessionID("")
 
 	return nil
 }
@@ -992,6 +1035,8 @@ func (t *streamableHTTPClientTransport) terminateSession(ctx context.Context) er
 // If it returns true, the client is currently running in stateless mode and will not include
 // a session ID in requests or attempt to establish GET SSE connections.
 func (t *streamableHTTPClientTransport) isStatelessMode() bool {
+	t.stateMu.RLock()
+	defer t.stateMu.RUnlock()
 	return t.isStateless
 }
 
@@ -1006,12 +1051,12 @@ func (t *streamableHTTPClientTransport) sendRequestWithStream(
 
 // establishGetSSEConnection attempts to establish a GET SSE connection if enabled
 func (t *streamableHTTPClientTransport) establishGetSSEConnection(ctx context.Context) {
-	if !t.enableGetSSE {
+	if !t.getSSEEnabled() {
 		t.logger.Debug("GET SSE is not enabled, will not establish GET SSE connection")
 		return
 	}
 
-	if t.sessionID == "" {
+	if t.getSessionID() == "" {
 		t.logger.Debug("Session ID is empty, cannot establish GET SSE connection")
 		return
 	}
